@@ -49,6 +49,8 @@ def zlabel(z):
     parts = []
     if z["view"] == "same0":
         parts.append("colluding")
+    elif z["view"] == "planted":
+        parts.append("serve-planted")
     elif z["view"] == "fork" and z["badAt"] >= 0:
         parts.append("fork-%s@%d" % (z["badKind"], z["badAt"]))
     elif z["view"] == "fork":
@@ -146,6 +148,20 @@ def catalogue(tier, seed):
     for kind in ["hdr-attach", "hdr-unknownparent", "hdr-malformed", "txset-empty", "txset-unknownbasis"]:
         add("v1", [zspec(relays=[dict(kind=kind, when="connected")], expect="ban" if kind in ban_relays else "")])
 
+    # ---- plant-then-serve (two Byzantine steps, the second by a fresh peer): z0 relays an outline that extends the
+    # victim's tip with valid PoW / height / payout / commitment but an invalid transaction (or a wrong height):
+    # rejected, relayer banned -- but chain.Manager.AddBlocks keeps the block's header state.  The accomplice z1
+    # then serves that very block through SendHeaders + (SendCheckpoint +) SendV2Blocks.  "Has a state" must
+    # not be mistaken for "validated", on either download path.
+    for regime in ["post", "mid"]:
+        for kind in (["outline-badtxn", "outline-height"] if thorough or regime == "post" else ["outline-badtxn"]):
+            for when in (["connected", "synced"] if thorough or regime == "post" else ["connected"]):
+                add(regime, [zspec(name="z0", relays=[dict(kind=kind, when=when)], expect="ban", dials=(when == "synced")),
+                             zspec(name="z1", view="planted", expect="ban" if kind == "outline-badtxn" else "")])
+    if thorough:
+        add("post", [zspec(name="z0", relays=[dict(kind="outline-badtxn", when="connected")], expect="ban"),
+                     zspec(name="z1", view="planted", expect="ban", dials=True), zspec(name="z2", view="planted", dials=False)], honest=2)
+
     # ---- mixes: several Byzantine peers, several honest peers, every connection order
     pool = [zspec(rules=[dict(rpc="SendV2Blocks", kind="mismatch")]), zspec(rules=[dict(rpc="SendHeaders", kind="unlinked", pos=1)]),
             zspec(view="fork", badAt=2, badKind="badtxn"), zspec(rules=[dict(rpc="SendV2Blocks", kind="short")]),
@@ -166,7 +182,8 @@ def catalogue(tier, seed):
 # ------------------------------------------------------------------ legs
 
 def leg_m_jobs(tier):
-    jobs = [("SyncMC", "Sync_byz_quick.cfg", "Sync byzantine (victim + honest + Byzantine peer, 8-block tree): safety + HonestProgress", 6, 1500)]
+    jobs = [("SyncMC", "Sync_byz_plant.cfg", "Sync byzantine plant-then-serve (two Byzantine peers; a rejected block's stored state is not 'validated'): safety + HonestProgress", 4, 900),
+            ("SyncMC", "Sync_byz_quick.cfg", "Sync byzantine (victim + honest + Byzantine peer, 8-block tree): safety + HonestProgress", 6, 1500)]
     if tier == "thorough":
         jobs.append(("SyncMC", "Sync_byz_full.cfg", "Sync byzantine (victim + honest + Byzantine peer, TreeB, all victim positions): safety + HonestProgress", 6, 3000))
         jobs.append(("SyncMC", "Sync_byz_req1.cfg", "Sync byzantine, every download on the pre-validated path (ReqH = 1): safety + HonestProgress", 6, 3000))
@@ -328,6 +345,10 @@ def selftest():
     x = vlib.run_tlc(wd, "SyncMC", "Sync_byz_mut_novalidate.cfg", workers=4, timeout=900)
     ok3 = x.exit != 0 and x.violated == "AlwaysValid"
     log("selftest 3 (model without ValidateBlock on the instant-sync path violates AlwaysValid): %s" % ("ok" if ok3 else "FAILED"))
+    x = vlib.run_tlc(wd, "SyncMC", "Sync_byz_plant_dev.cfg", workers=4, timeout=900)
+    ok3b = x.exit != 0 and x.violated == "AlwaysValid"
+    log("selftest 3 (model that skips ValidateBlock for blocks whose state is already stored violates AlwaysValid): %s" % ("ok" if ok3b else "FAILED"))
+    ok3 = ok3 and ok3b
     # 4. the ban expectation bites: a corruption the code answers by dropping is not accepted as 'banned'
     sc = scen("self1", "mid", [zspec(rules=[dict(rpc="SendHeaders", kind="unlinked", pos=1)], expect="ban")])
     v4 = vlib.Verdict(PROP + "-selftest"); v4.findings = []
